@@ -22,7 +22,7 @@ META = {
         'A1 reals; relative-epsilon fudge factors kept as the exact rational constants of the source',
     ],
     'assumptions': ['A1', 'A2', 'A5', 'A7', 'sigma, lam, gamma > 0'],
-    'not_decided': ['ProximalLInfty / ProximalConvexConjLinfty (proj_l1 / proj_simplex: sort + cumsum + argwhere)',
+    'not_decided': ['the values computed by proj_simplex (sort + cumsum + argwhere): taken by contract (a function of the values of its input and the diameter; ProximalLInfty / ProximalConvexConjLinfty / proj_l1 around it are under contract)',
                     'ProximalConvexConjKLCrossEntropy (scipy.special.lambertw on the array)',
                     'ProximalL1L2 / ProximalConvexConjL1L2 / Huber on product spaces: see pspace units'],
 }
